@@ -35,13 +35,35 @@ def run_impl(case):
         init = list(case['init'])
         cd = PL.true_children(m, init) if case.get('cd') and case['cache'] else None
         p = POSet(init, leq, use_cache=case['cache'], children_dict=cd)
-        outs = [PL.apply_op(p, o, leq, POSet) for o in case['ops']]
+        outs = [_call(p, o, leq, POSet, case) for o in case['ops']]
         raw = PL.raw_caches_term(p)          # read-only peek, before the final queries fill everything
         # kept as compact strings (Coq terms): thousands of small lists per case are
         # too heavy for the volumes of the thorough tier
         return [PL.xouts_term(outs), raw, PL.outs_term(PL.run_final(p, leq, POSet))]
     r = guarded(go, timeout_s=20)
     return list(r)
+
+
+def _call(p, o, leq, POSet, case):
+    if o[0] != 'eq2':
+        return PL.apply_op(p, o, leq, POSet)
+    # == against a poset over ANOTHER comparison (its own function object), in either direction
+    try:
+        m2 = case['alts'][o[3]]
+        other = POSet(list(o[1]), (lambda a, b: m2[a][b]), use_cache=bool(o[2]))
+        return ['b', bool(other == p) if o[4] else bool(p == other)]
+    except Exception as e:  # noqa
+        return PL._x(e)
+
+
+def _xops_term(case):
+    out = []
+    for o in case['ops']:
+        if o[0] == 'eq2':
+            out.append('(XEq2 %s %s (mleq %s) %s)' % (coq(list(o[1])), PL.b(o[2]), coq(case['alts'][o[3]]), PL.b(o[4])))
+        else:
+            out.append(PL.xop_term(o))
+    return '[' + '; '.join(out) + ']'
 
 
 def to_coq(case, out):
@@ -58,7 +80,7 @@ def to_coq(case, out):
     exact = len(m) <= 8
     return 'Build_c09_case %s %s %s %s %s %s %s %s %s' % (
         coq(m), coq(list(case['init'])), PL.b(case['cache']), PL.cache_term(cd),
-        PL.xops_term(case['ops']), steps, raw, PL.b(exact), fin)
+        _xops_term(case), steps, raw, PL.b(exact), fin)
 
 
 # ------------------------------------------------------------------ generation
@@ -78,7 +100,45 @@ def random_case(rng, max_ops, kmax=8):
         init, cache, cd = rng.sample(range(k), rng.choice([10, k])), True, True
         max_ops = min(max_ops, 8)
     ops = PL.random_history(rng, init, k, rng.randint(3, max_ops), cache, ext=True)
-    return {'matrix': m, 'init': init, 'cache': cache, 'cd': cd, 'ops': ops, 'kind': kind}
+    case = {'matrix': m, 'init': init, 'cache': cache, 'cd': cd, 'ops': ops, 'kind': kind}
+    if rng.random() < 0.3:
+        add_eq2(rng, case)
+    return case
+
+
+def add_eq2(rng, case):
+    """Insert == against posets over the same / permuted / sub / super element lists ordered by
+    ANOTHER relation (equal copy, sub-relation, super-relation, unrelated), in both directions."""
+    m, k = case['matrix'], len(case['matrix'])
+    case['alts'] = PL.alt_orders(rng, m)
+    cur, ops = list(case['init']), []
+    for o in case['ops']:
+        ops.append(o)
+        if o[0] == 'add' and o[1] not in cur:
+            cur.append(o[1])
+        elif o[0] == 'del' and o[1] < len(cur):
+            cur.pop(o[1])
+        elif o[0] == 'rm' and o[1] in cur:
+            cur.remove(o[1])
+        if rng.random() < 0.3:
+            ops += _eq2_ops(rng, cur, k)
+    ops += _eq2_ops(rng, cur, k)
+    case['ops'] = ops
+
+
+def _eq2_ops(rng, cur, k):
+    els = list(cur)
+    rng.shuffle(els)
+    v = rng.random()
+    absent = [x for x in range(k) if x not in cur]
+    if v < 0.12 and els:
+        els = els[:-1]
+    elif v < 0.24 and absent:
+        els.append(rng.choice(absent))
+    alt, oc = rng.randrange(4), rng.random() < 0.7
+    if rng.random() < 0.6:                       # the same pair asked in both directions
+        return [['eq2', els, oc, alt, False], ['eq2', els, oc, alt, True]]
+    return [['eq2', els, oc, alt, rng.random() < 0.5]]
 
 
 U5 = PL.closure(5, [(0, 1), (0, 2), (1, 3), (2, 3)])     # {},{0},{1},{0,1} and an incomparable 4
@@ -195,7 +255,7 @@ def stats(case):
             'has_present_add': _has_present_add(case),
             'has_del': any(o[0] == 'del' for o in ops), 'has_rm': any(o[0] == 'rm' for o in ops),
             'has_join_meet': any(o[0] == 'bd' for o in ops), 'has_fill': any(o[0] == 'fill' for o in ops),
-            'has_eq': any(o[0] == 'eq' for o in ops),
+            'has_eq': any(o[0] == 'eq' for o in ops), 'has_eq_other_order': any(o[0] == 'eq2' for o in ops),
             'has_trace': any(o[0] == 'trace' for o in ops), 'has_dict': any(o[0] == 'dict' for o in ops),
             'has_sup_inf': any(o[0] == 'sup' for o in ops)}
 
